@@ -895,8 +895,17 @@ class sptensor:
         >>> S.innerprod(K)
         3.0
         """
-        # If all entries are zero innerproduct must be 0
+        # If all entries are zero innerproduct must be 0 (for a partner of the
+        # same shape)
         if self.nnz == 0:
+            if not isinstance(
+                other, (ttb.sptensor, ttb.tensor, ttb.ktensor, ttb.ttensor)
+            ):
+                assert (
+                    False
+                ), f"Inner product between sptensor and {type(other)} not supported"
+            if tuple(self.shape) != tuple(other.shape):
+                assert False, "Operands must be same shape for innerproduct"
             return 0
 
         if isinstance(other, ttb.sptensor):
